@@ -37,6 +37,29 @@ def main():
             if not (vol[m] > 0 and lo * (1 - 1e-9) <= vol[m] <= hi * (1 + 1e-9)) or (m > 0 and vol[m] < vol[m - 1]):
                 return dict(reproduced=True, call='volume_simulate(live_reaction=%s, cycle=%r, delta=%r, initial time %r) row %d t=%r' % (live, cycle, delta, t0, m, float(t)),
                             observed=float(vol[m]), expected=[lo, hi])
+    # division: with zero division noise the volume model reports division at the first delta tick at or after a known time; placed in every
+    # interval of the grid - the first, a middle one and the LAST one - the result must end at that grid time and be flagged as divided
+    for it in range(SPEC.get('division_rounds', 12)):
+        delta = rng.choice([0.125, 0.25, 0.5])           # binary-exact: delta ticks and grid times coincide
+        N = rng.choice([9, 17, 41])
+        T = np.arange(N) * delta
+        cycle = rng.choice([1.0, 2.0, 5.0])
+        g = 0.69314718056 / cycle
+        for j in sorted({1, 2, N // 2, N - 2, N - 1}):
+            M = Model(species=['A'], reactions=[([], ['A'], 'massaction', {'k': rng.uniform(0.5, 3)}), (['A'], [], 'massaction', {'k': 0.5})], initial_condition_dict={'A': 3})
+            v = StochasticTimeThresholdVolume(cycle, math.exp(g * (j - 0.5) * delta), 0.0)       # division time (j - 0.5) * delta, reported at tick j
+            py_seed_random(rng.randint(1, 10 ** 6))
+            itf = ModelCSimInterface(M)
+            itf.py_set_dt(delta)
+            itf.py_set_initial_time(0.0)
+            v.py_initialize(np.array([3.0]), np.array([1.0]), 0.0, 1.0)
+            res = VolumeSSASimulator().py_volume_simulate(itf, v, T.copy())
+            tt = res.py_get_timepoints()
+            n += 1
+            if not res.py_cell_divided() or len(tt) != j + 1 or tt[-1] != T[j]:
+                return dict(reproduced=True, call='volume_simulate on np.arange(%d) * %r with a division reported at grid time %r (index %d of %d)' % (N, delta, float(T[j]), j, N - 1),
+                            observed=dict(flagged_divided=bool(res.py_cell_divided()), rows=len(tt), last_time=float(tt[-1])),
+                            expected=dict(flagged_divided=True, rows=j + 1, last_time=float(T[j])))
     return dict(reproduced=False, evaluations=n)
 
 
